@@ -89,12 +89,15 @@ func idString(id rID, prefix string) (string, bool) {
 
 	// (kelvin sign and long s: what a case-insensitive [a-z] matches by Unicode case folding; a line feed at
 	// the end: what a '$' that also matches before a final line break lets through)
-	bad := map[string]string{"space": " ", "dot": ".", "nonascii": "é", "slash": "/", "kelvin": "\u212a", "longs": "\u017f", "linefeed": "\n"}
+	bad := map[string]string{"space": " ", "dot": ".", "nonascii": "é", "slash": "/", "kelvin": "\u212a", "longs": "\u017f", "linefeed": "\n",
+		"hash_first": "#", "space_last": " "}
 	if b, ok := bad[id.Chars]; ok {
 		// keep the byte length, put the offending character inside
 		if id.Len == 1 {
 			s = b // a single character
-		} else if id.Chars == "linefeed" {
+		} else if id.Chars == "hash_first" {
+			s = b + s[1:]
+		} else if id.Chars == "linefeed" || id.Chars == "space_last" {
 			s = s[:id.Len-1] + b
 		} else {
 			s = s[:id.Len/2] + b + s[id.Len/2+len(b):]
@@ -500,7 +503,7 @@ func randomID(r *rand.Rand) rID {
 	case r.Float64() < 0.5:
 		return rID{true, []int{0, 51}[r.Intn(2)], "ok"}
 	default:
-		return rID{true, []int{1, 50}[r.Intn(2)], []string{"space", "dot", "nonascii", "slash", "kelvin", "longs", "linefeed"}[r.Intn(7)]}
+		return rID{true, []int{1, 50}[r.Intn(2)], []string{"space", "dot", "nonascii", "slash", "kelvin", "longs", "linefeed", "hash_first", "space_last"}[r.Intn(9)]}
 	}
 }
 
